@@ -861,6 +861,17 @@ def run(ctx):
                 ctx.violation({'kind': 'stream-cli-timeout', 'case': short_case(c)})
             break
 
+    # ... and on a stream of the crafted messages whose bodies contain b'BUFR' and b'7777'
+    inner = [d['bytes'] for d in pool if d.get('crafted') and (b'7777' in d['bytes'][8:-4] or b'BUFR' in d['bytes'][4:])][:5]
+    if len(inner) >= 2:
+        stream = b'\r\r\n'.join(inner) + b'\r\r\n\x03'
+        try:
+            run_cli_sample(ctx, {'name': 'cli-inner-signatures', 'stream': stream, 'expect': inner, 'info_only': False,
+                                 'continue_on_error': False, 'filter': None, 'tags': ['cli', 'body-contains-7777'],
+                                 'in_domain': True})
+        except subprocess.TimeoutExpired:
+            ctx.violation({'kind': 'stream-cli-timeout', 'case': {'name': 'cli-inner-signatures'}})
+
     cross_check(ctx, res_clean + [], ctx.n(12, 60))
 
     for need in ('body-contains-BUFR', 'sep:partial', 'mixed-editions', 'damaged', 'off-domain',
